@@ -365,7 +365,8 @@ def get_data_json_path(sid_path: Path) -> Path:
 
 KEY_RENAMES = {"project": ["project", "prj", "show"], "type": ["type", "kind", "cat"], "state": ["state", "status", "st"],
                "version": ["version", "ver", "take"], "leaf": ["ext", "fmt", "suffix"], "node": ["node", "layer", "part"]}
-LEVEL_KEY_POOL = ["assettype", "asset", "sequence", "shot", "task", "step", "dept", "name", "episode", "seq", "group", "item"]
+LEVEL_KEY_POOL = ["assettype", "asset", "sequence", "shot", "task", "step", "dept", "name", "episode", "seq", "group", "item",
+                  "asset_type", "shot_nr", "lvl2"]
 CLOSED_POOLS = [["char", "location", "prop", "fx"], ["art", "model", "surface", "rig"], ["board", "layout", "anim", "fx", "render", "comp"],
                 ["mod", "tex", "shd"], ["k1", "k2"], ["main", "alt", "test", "dev", "x9"]]
 EXT_POOLS = [["ma", "mb", "hip", "blend", "hou", "psd", "nk", "maya"], ["mp4", "mov", "avi", "movie"], ["abc", "json", "fur", "grm", "vdb", "cache"],
@@ -393,7 +394,7 @@ def specs(draw):
     reserved = set(spec["keys"].values())
     # 2. basetype names, codes, folders
     if chance():
-        names = draw(st.lists(st.sampled_from(["asset", "shot", "elem", "plan", "lib", "seq", "as", "sh"]), min_size=2, max_size=2, unique=True))
+        names = draw(st.lists(st.sampled_from(["asset", "shot", "elem", "plan", "lib", "seq", "as", "sh", "lib_asset", "my_shot", "a_b_c", "shot2"]), min_size=2, max_size=2, unique=True))
         codes = draw(st.lists(st.sampled_from(["a", "s", "x", "y", "e", "lib", "A"]), min_size=2, max_size=2, unique=True))
         for b, n, c in zip(spec["basetypes"], names, codes):
             b["name"], b["code"], b["folder"] = n, c, draw(st.sampled_from([n.upper() + "S", "DIR_" + c, n + "_lib"]))
@@ -491,7 +492,7 @@ def specs(draw):
     if chance(20):
         used_names = {b["name"] for b in spec["basetypes"]} | {spec["project_basetype"]}
         used_codes = {b["code"] for b in spec["basetypes"]}
-        n = draw(st.sampled_from([x for x in ["render", "lib", "edit"] if x not in used_names]))
+        n = draw(st.sampled_from([x for x in ["render", "lib", "edit", "post_fx"] if x not in used_names]))
         c = draw(st.sampled_from([x for x in ["r", "l", "z"] if x not in used_codes]))
         spec["basetypes"].append({"name": n, "code": c, "folder": n.upper(), "out_folder": "OUT",
                                   "levels": [{"key": "dept", "kind": "closed", "values": ["lgt", "cmp"], "constants": True},
@@ -528,7 +529,7 @@ def canonical_specs():
     variant("rename-keys", lambda s: s["keys"].update({"project": "show", "type": "kind", "state": "status", "version": "take", "leaf": "suffix", "node": "layer"}))
 
     def rename_bt(s):
-        s["basetypes"][0].update({"name": "elem", "code": "e", "folder": "ELEMS"})
+        s["basetypes"][0].update({"name": "lib_elem", "code": "e", "folder": "ELEMS"})
         s["basetypes"][1].update({"name": "plan", "code": "x", "folder": "DIR_x"})
         s["project_basetype"] = "root"
     variant("rename-basetypes", rename_bt)
